@@ -24,6 +24,18 @@ CLAIMED = {
         note="Trusted: voluptuous combinator semantics as encoded in sa/descr.py (All/Any/In/Range/Coerce), the reviewed reference table sa/spec/c03_payload_rules.json, reflection (import only; no validator is invoked). Not decided: the language accepted by int()/float() themselves.",
         ref="DESIGN.md section 4 C03",
     ),
+    "C04": dict(
+        technique="who-may-call tables over the syntax tree plus trace predicates over all abstract paths of Gateway.logic (path-sensitive interpretation): insertion guards, provenance of stored keys/values, alert discipline",
+        text="Structural clauses that make the tree mirror the accepted messages by construction, decided on every abstract handler path for all versions / gateway families: nodes and children are inserted only by the message kinds of the statement, only under `key not in map`, under the inbound message's own ids; values and node attributes are written only by the message kind that reports them, from that message's sub-type/payload (plain overwrite); a persisted mutation is followed by exactly one alert(inbound msg) and none precedes it; alert() isolates the callback and the three setters are total with fallbacks 0 / '1.4' / 0. Histories are covered by induction over writers. Lock-step equality with a reference model is not decided.",
+        note="Trusted: sa/effects.py store classification (derived from the JSON encoder), sa/extmodel.py. The who-may-call tables are frozen from the statement; a new legitimate writer added by a refactoring would be reported and has to be reviewed.",
+        ref="DESIGN.md section 4 C04",
+    ),
+    "C14": dict(
+        technique="trace predicates over all abstract paths of Gateway.logic, Gateway.alert and the two stop() methods (path-sensitive interpretation), plus a who-may-write scan of the dirty flag",
+        text="On every abstract path of every registry handler (all versions, MQTT/TCP overrides) a persisted mutation is followed by alert(); every path through alert() stores need_save = True unless persistence is off, including the path where the callback raised; both stop() methods, with persistence on, disconnect, cancel a pending save and then call save_sensors exactly once on every path; the flag is cleared only as the last statement of save_sensors and the skip test reads only the flag.",
+        note="Trusted: sa/effects.py (persisted projection = keys the JSON encoder writes + map insertions), sa/extmodel.py. Not decided: the cross-thread window between the end of serialisation and the flag store.",
+        ref="DESIGN.md section 4 C14",
+    ),
 }
 
 NOT_APPLICABLE = {
